@@ -24,6 +24,8 @@ CHECKS = {
          "Patterns and near-misses at top level, under operators, in (domain-restricted) scopes, in batches, on constrained networks."),
  "C13": ("TLA+ weak-until semantics; trace validation of EW/AW formulae and of the defining equivalences evaluated through the tool (Trace_Sem 'denote','equal')",
          "EW/AW results judged against E[a U b] or EG a / not E[not b U (not a and not b)] computed by TLC."),
+ "C14": ("API pipeline outcome (ok / err / panic) judged by TLC: the specification lexes and parses the recorded characters (Syntax.tla) and decides ShouldErr (binding, propositions, context labels, nesting depth vs k) (Trace_Sem 'api', 'apistr')",
+         "Every string entry point under catch_unwind on valid formulae with injected defects, grammar-mutated, token-soup and unicode strings, partial context maps (sets also outside the valid universe), k = 0..3."),
  "C15": ("trace validation across k = depth..depth+2, sanitised vs raw (Trace_Sem 'equal','canon')",
          "All variants must give the same explicit set; sanitised BDDs must live in the canonical variable set and intersect with a plain graph's unit set."),
  "C18": ("trace validation of unsafe_ex vs dirty evaluation; antecedent (fragment / no steady state) decided by TLC (Trace_Sem 'unsafe')",
